@@ -14,7 +14,8 @@ from src.parsers.cmap_reader import CmapReader  # noqa: E402
 
 RULE = ("molecule sets over ids {1,2,3,7,10} with 0-3 labels each (coincident labels, one-decimal coordinates, decimal end marker, "
         "extra column) x every permutation of the data rows (row bound) x every id filter (all subsets of present ids plus an absent id, "
-        "and no filter) x both reader entry points; trim: every label list (<=5 labels) over a lattice with one-decimal offsets; "
+        "and no filter) x both reader entry points; two-call sequences on ONE reader over two named files on disk (same or different file, "
+        "every pair of id filters, both entry-point orders); trim: every label list (<=5 labels) over a lattice with one-decimal offsets; "
         "non-trivial = rows not in canonical order, or a filter is given, or a molecule has no label")
 ASSUMPTIONS = ["independent expectation computed from the molecule description, not by parsing with COMA code"]
 
@@ -122,6 +123,76 @@ def check_trim(pos, length, acc):
     return found
 
 
+def _expected(mols, ids):
+    return sorted((m, int(l), sorted(split(x)[0] for x in p)) for m, l, p in mols if p and (not ids or m in ids))
+
+
+@core.guarded(lambda wa, wb, calls, *a: dict(kind='reuse', worlds=[wa, wb], calls=[list(c) for c in calls]))
+def check_reuse(wa, wb, calls, acc):
+    """operation sequence on ONE CmapReader over two NAMED files on disk (what Program does: references, then queries; the two
+    may be the same file with different id filters); calls: (file 0/1, entry, ids)"""
+    import os
+    d = core.scratch_dir()
+    paths = [os.path.join(d, 'reuse-a.cmap'), os.path.join(d, 'reuse-b.cmap')]
+    molsets = [WORLDS[wa], WORLDS[wb]]
+    for p, mols in zip(paths, molsets):
+        plain = [(m, l, [split(x)[0] for x in pp]) for m, l, pp in mols]
+        with open(p, 'w') as f:
+            f.write(cmaptext.text(plain))
+    found = []
+    case = dict(kind='reuse', worlds=[wa, wb], calls=[list(c) for c in calls])
+    rd = CmapReader()
+    outs = []
+    for k, (fi, entry, ids) in enumerate(calls):
+        try:
+            with open(paths[fi]) as f:
+                got = (rd.readQueries if entry == 'queries' else rd.readReferences)(f, ids)
+            g = sorted((int(o.moleculeId), o.length, list(o.positions)) for o in got)
+        except Exception as e:
+            found.append(('reader-exception', 'call %d: %s: %s' % (k + 1, type(e).__name__, e), 'reader', {'call': min(k + 1, 2)}))
+            outs.append(None)
+            continue
+        outs.append(tuple((m, l, tuple(p)) for m, l, p in g))
+        exp = _expected(molsets[fi], ids)
+        if g != exp:
+            found.append(('maps-differ', 'call %d (file %d, %s, ids %s) after %s: got %s expected %s' % (
+                k + 1, fi, entry, ids, [list(c) for c in calls[:k]], g, exp), 'reader', {'call': min(k + 1, 2)}))
+    if acc is not None:
+        acc.evals += 1
+        acc.transitions += len(calls)
+        acc.state(('r', tuple(outs)))
+        if len(calls) > 1 and calls[0][0] == calls[1][0] and calls[0][2] != calls[1][2]:
+            acc.nontriv(('r', wa, wb, tuple(map(str, calls))))
+            acc.classes['same-file-read-twice-with-different-filters'] += 1
+        for f in found:
+            acc.viol(f[0], case, f[1], f[2], f[3])
+        acc.sample(case)
+    return found
+
+
+class Reuse(core.Layer):
+    def __init__(self, name, optional=False):
+        self.name, self.optional = name, optional
+        self.items = [(i, (i + 1) % 7) for i in range(7)]
+        self.bounds = dict(file_pairs=len(self.items), calls_per_reader=2, files=2, id_filters='all subsets + absent id + none', entries=['references', 'queries'])
+        self.rule = '%d file pairs x every ordered pair of calls (file, id filter) with entry points references-then-queries and queries-then-references, on one reader' % len(self.items)
+
+    def nblocks(self):
+        return len(self.items)
+
+    def run_block(self, b, acc):
+        wa, wb = self.items[b]
+        opts = [(fi, ids) for fi, w in ((0, wa), (1, wb)) for ids in id_filters(WORLDS[w])]
+        for f1, i1 in opts:
+            for f2, i2 in opts:
+                for e1, e2 in (('references', 'queries'), ('queries', 'references')):
+                    acc.seq += 1
+                    check_reuse(wa, wb, ((f1, e1, i1), (f2, e2, i2)), acc)
+
+    def replay(self, case):
+        return check_reuse(case['worlds'][0], case['worlds'][1], [tuple(c) for c in case['calls']], None)
+
+
 def id_filters(mols):
     present = sorted(m[0] for m in mols)
     out = [None]
@@ -144,8 +215,8 @@ class Reader(core.Layer):
             else:
                 base = list(range(n))
                 perms = [tuple(base), tuple(base[::-1])] + [tuple(base[:i] + [base[i + 1], base[i]] + base[i + 2:]) for i in range(n - 1)]
-            for chunk in range(0, len(perms), 120):
-                self.items.append((wi, perms[chunk:chunk + 120]))
+            for chunk in range(0, len(perms), 40):
+                self.items.append((wi, perms[chunk:chunk + 40]))
         self.items.append(('trim', None))
         self.bounds = dict(molecule_sets=len(WORLDS), all_row_permutations_up_to_rows=maxrows, id_filters='all subsets + absent id + none',
                            entries=['queries', 'references'])
@@ -175,10 +246,12 @@ class Reader(core.Layer):
     def replay(self, case):
         if case['kind'] == 'trim':
             return check_trim(case['positions'], case['length'], None)
+        if case['kind'] == 'reuse':
+            return Reuse('x').replay(case)
         return check_read([tuple(m) for m in case['molecules']], case['row_order'], case['ids'], case['entry'], None, case.get('layout', 1))
 
 
 def layers(tier, seed):
     if tier == 'quick':
-        return [Reader('rows<=6', 6)]
-    return [Reader('rows<=6', 6), Reader('rows<=7', 7)]
+        return [Reader('rows<=6', 6), Reuse('seq2:one-reader')]
+    return [Reader('rows<=6', 6), Reuse('seq2:one-reader'), Reader('rows<=7', 7)]
